@@ -16,6 +16,8 @@ CONSTANTS
   Shapes = @@SHAPES@@
   FixSets = @@FIXSETS@@
   Causes = {"peer", "sweep"}
+  KeepCreatedAt = @@KEEPCA@@
+  UseRequestId = @@USEREQ@@
   Lookups = @@LOOKUPS@@
   WritingLookup = @@WLOOKUP@@
   Emit = FALSE
